@@ -14,7 +14,7 @@ CLAIMED = {
         "affine attains err2=0 and is optimal (PARTIAL for the 'both equal -i' clause: uniqueness needs genericity of the temperature "
         "structure and is covered by planted-shift correspondence only). The hand-written model is tied to the code by an exhaustive "
         "correspondence (every nx<=8 quick/12 thorough, nt in {1,2}, every |i|<=nx, tagged cells, numpy and dask) evaluated inside Coq, "
-        "and by exact re-evaluation of err1/err2 in integer arithmetic for random planted-shift fibres.",
+        "and by exact re-evaluation of err1/err2 in integer arithmetic for random planted-shift fibres. Known finding F23: on short fibres with a near-linear temperature profile the err1 objective has its minimum off the true alignment (the returned first suggestion is the exact minimiser of err1, checked in Coq; the err2 suggestion is right).",
    ref="5/C14", note=TB + "log and nansum are modelled: the model sums exactly, the implementation's argmin is accepted when within 1e-6 "
         "relative of the exact minimum.", technique="Coq proof over list model + exhaustive/seeded correspondence via vm_compute"),
  "C16": dict(
@@ -32,7 +32,7 @@ CLAIMED = {
         "the given order, per bath, and over all baths at ix_all with each location's own bath; ix_all is strictly ascending (fibre order) "
         "for every accepted definition on an increasing grid; the five argument modes (plain, x_indices, temp_err, ref_temp_broadcasted, "
         "subtract_from_label) are the stated element-wise operations. Tied to ufunc_per_section by seeded layouts x 5 modes x 3 calc_per x "
-        "1-D/2-D variables x numpy/dask with tagged integer data compared exactly inside Coq.",
+        "1-D/2-D variables x numpy/dask with tagged integer data compared exactly inside Coq. Added: three or four stretches of one bath in every listing order; number of axes of every result; the (x,) case obtained by selecting one time step.",
    ref="5/C20", note=TB + "func=None (identity); the statistic is the caller's function.", technique="Coq proof over list model + seeded correspondence via vm_compute"),
  "C15": dict(
    text="Proof for time axes of any length with mutually distinct stamps: the chronological walk keeps forward i with backward j iff bw_j is later "
@@ -62,7 +62,7 @@ CLAIMED = {
         "value). The dyadic conformance evaluators are proved to compute the rational quantities of the theorems. Each run compares X, y, w of "
         "solver='external' with the hand-written row model and judges p_val/p_cov by exact residual tests (normal equations, N*Cov = s2*I, "
         "(n-p)*s2 = SSR) in exact dyadic arithmetic with certified reciprocals, under the code's and under own-variance weights, incl. a 10 m - 10 km "
-        "scale family.",
+        "scale family. Added in the build round: soundness of the covariance judge over Q ((n-p) N C = SSR I entry-wise) and uniqueness of a symmetric C with N C = s I.",
    ref="5/C01", note=TB + "LSQR and LAPACK lstsq are judged (tolerance 2^-23 on scaled residuals), not modelled; ln and reciprocals enter as certified "
         "float approximants.", technique="Coq proof of WLS optimality + row-form model; exact dyadic residual tests via vm_compute"),
  "C02": dict(
@@ -72,7 +72,7 @@ CLAIMED = {
         "a one-dimensional null space with a splice (T12) - hence estimable quantities are what is compared; the weighted time average of alpha outside the "
         "sections is the WLS estimate of a constant (T11). Each run compares X, y, w of solver='external' (forward, backward, EQ1-EQ3 rows) with the row-form "
         "model, judges p_val by the exact normal-equation test and p_cov by the generalised-inverse identity, checks the zero pattern of p_cov, alpha = 0 "
-        "with zero variance at the first reference location, and recomputes alpha outside the sections exactly.",
+        "with zero variance at the first reference location, and recomputes alpha outside the sections exactly. Added: soundness of the generalised-inverse covariance judge over Q and the theorem that N C N = s N determines J'CJ for every estimable J = N z; two splices in both listing orders with locations outside the sections between them.",
    ref="5/C02", note=TB + "LSQR / lstsq judged (2^-23), not modelled; the generalised-inverse covariance evaluator (cov_ok_g) is executable specification, "
         "its soundness lemma is not proved (the normal-equation evaluator's is); translator vlib/translators/fromi.py.",
    technique="Coq proof over translator-regenerated scatter lists + WLS theorems; exact dyadic residual tests via vm_compute"),
@@ -83,7 +83,7 @@ CLAIMED = {
         "run captures the arguments of wls_sparse at run time and compares y and w with the reduced rows of the model (w certified as the inverse of the own "
         "variance plus sum c^2 var_fixed; for single-ended, also the faithful x-major model because of F1), judges the free parameters by exact residual "
         "tests on the reduced problem and checks that fixed parameters are reported as supplied with zero covariances - for fix_gamma, fix_dalpha, "
-        "fix_alpha, fix_alpha+fix_gamma and variances 0, tiny, comparable, 100x.",
+        "fix_alpha, fix_alpha+fix_gamma and variances 0, tiny, comparable, 100x. Added: matching sections in the fixed-parameter conformance (single ended, and double ended EQ1-3 rows with certified inflated weights), location-dependent variance of a fixed alpha, all eight fix combinations.",
    ref="5/C07", note=TB + "run-time wrapper around calibrate_utils.wls_sparse inside the harness process; no matching sections in the C07 conformance; "
         "single-ended cases inherit the known finding F1.", technique="Coq proof of the reduction + exact dyadic residual tests on captured solver input"),
  "C03": dict(
@@ -92,7 +92,7 @@ CLAIMED = {
         "pairs are formed tuple by tuple and a permutation of the tuples only permutes the pairs (T15). Conformance: noise-free fibres generated exactly from "
         "the model, crossed with single/double x 0-2 splices x {sections on both sides, front-only + matching sections} x {free, fix_gamma, fix_dalpha, "
         "fix_alpha, fix_alpha+fix_gamma}; tmpf/tmpb/tmpw within 1e-5 K of the truth everywhere, gamma and dalpha/alpha recovered; match_sections pairs "
-        "compared with the model inside Coq.",
+        "compared with the model inside Coq. Added: any minimiser of consistent data has zero residuals (T13b); splices exactly on a sampling location outside the sections; splices listed downstream-first.",
    ref="5/C03", note=TB + "the 'enough information' premise is met by construction of the generator (and reported per case); the solver is judged on its output.",
    technique="Coq proof (consistency => optimum, field identity) + ground-truth conformance over the option matrix"),
  "C05": dict(
@@ -101,7 +101,7 @@ CLAIMED = {
         "T_st^2 s_st + T_ast^2 s_ast + J' Cov J for tmpf_var, tmpb_var, tmpw_var (weights constant) and the single-ended variance with free or fixed alpha; "
         "(T20, over R with Coquelicot) every generated sensitivity is the partial derivative of the temperature equation (gamma, st, ast, df/c, alpha, splice "
         "loss, dalpha; forward and backward). Conformance: at every (x, time) of seeded results the reported variances equal the propagation of the reported "
-        "p_cov evaluated exactly (2^-30). Finding F13 (missing cross-covariances) was reported by this check and repaired.",
+        "p_cov evaluated exactly (2^-30). Finding F13 (missing cross-covariances) was reported by this check and repaired. Added: soundness of the variance judge over Q; two fixed parameter groups with non-zero variances; strongly attenuated fibres.",
    ref="5/C05", note=TB + "The R-side theorems depend on the standard library's real-number axioms (ClassicalDedekindReals.sig_forall_dec, sig_not_dec, "
         "Classical_Prop.classic, FunctionalExtensionality.functional_extensionality_dep - as Print Assumptions lists them). The named covariance blocks "
         "(hypothesis named_blocks_*) model get_params_from_pval_*; that model is tied to the code by the exact conformance test. Translator "
@@ -132,7 +132,7 @@ CLAIMED = {
         "moves every optimum by exactly that shift with the same cost, and leaves the intensity part of the temperature variance unchanged (T63). Conformance: "
         "pairs of real runs under each transformation (dict/stretch order, renaming, gain 1e-3..1e3 with k^2 variance, variance as float/array/DataArray/"
         "callable, deletion of unreferenced locations, time permutation) at 1e-8 relative; two identical calls bit-identical; input hashed before/after. "
-        "Single-ended time permutation is a KNOWN FINDING (F1: x-major weights are not equivariant).",
+        "Single-ended time permutation is a KNOWN FINDING (F1: x-major weights are not equivariant). Added: the same transformations with fixed parameters; condition-aware tolerance; identifiability filter.",
    ref="5/C18", note=TB + "purity is observed, not proved; T64/T65 (variance forms, deletion) are true by construction of the model (it takes arrays, and rows only "
         "read reference/matching cells) and are covered by the conformance pairs only.", technique="Coq proof of invariance/equivariance of the WLS problem + metamorphic pairs of real runs"),
  "C08": dict(
@@ -152,7 +152,7 @@ CLAIMED = {
         "as such); (T36) the inverse-variance weighted mean lies in the hull of the averaged values and its variance 1/sum(1/v_i) is positive and at most every v_i. "
         "The hand-written output table is tied to the code by comparing, inside Coq, the dims of every variable returned by average_monte_carlo_single_ended / "
         "_double_ended with the model (finding F6 - tmpw_mc_avgx1_var indexed by mc - was reported by this comparison and repaired). Values: avg1/avgx1 = arithmetic "
-        "mean of the calibrated temperature; avg2/avgx2 variance = 1/sum(1/var_i) exactly; sel by label vs isel by index of the same elements agree to 1e-10.",
+        "mean of the calibrated temperature; avg2/avgx2 variance = 1/sum(1/var_i) exactly; sel by label vs isel by index of the same elements agree to 1e-10. Added: several averaging flags in one call compared with the single-flag calls (finding F22, repaired); tmpw of the weighted modes (theorem + values).",
    ref="5/C09", note=TB + "PARTIAL for the avg2/avgx2 VALUE: the code reports the MC mean of the weighted set, which differs from the weighted mean of the calibrated "
         "temperature by sampling noise; it is judged with an 8-standard-error threshold (sampling support, not proof). Declared dims are compared with the "
         "shape of the computed data and confidence bounds with the percentiles of the kept Monte Carlo set (finding F20, repaired: the time-mean block ran in "
@@ -173,7 +173,7 @@ CLAIMED = {
         ".dts.matching_sections and the trans_att coordinate are those passed to the most recent calibration - under two explicit hypotheses: the serialiser "
         "round-trips (yaml.load(yaml.dump(v)) = v) and attribute strings survive file storage. The correspondence check is where these hypotheses are "
         "checked: real calibrate_* / monte_carlo_* / to_netcdf / open_dataset runs on seeded inputs with int, float, np.float32/64, np.int64 bounds, 0-2 "
-        "matching pairs of either direction flag, 0-2 splices; equality of definitions, coordinates and data across the file round trip.",
+        "matching pairs of either direction flag, 0-2 splices; equality of definitions, coordinates and data across the file round trip. Added: np.float32 bounds of non-representable numbers compared as exact float64; editing the returned definition in place; every Monte Carlo option set.",
    ref="5/C17", note=TB + "PyYAML and netCDF4 are runtime libraries the model cannot exhibit; yaml.dump sorts dictionary keys, so definitions are compared as "
         "Python dictionaries (key order carries no information, C18).", technique="Coq proof of the dataflow under explicit round-trip hypotheses + real serialiser/file round trips"),
  "C11": dict(
@@ -205,7 +205,7 @@ CLAIMED = {
         "scheduler and thread interleaving, and round-off of re-associated reductions - is examined by real runs: reader outputs for load_in_memory True/False/'auto' "
         "under several dask chunk-size limits (synthesised Silixa set, bundled Silixa and AP Sensing sets); single/double-ended calibration, variance_stokes_constant / "
         "_exponential (estimate AND residual field) and ufunc_per_section on datasets re-chunked along x and time, under the synchronous scheduler and the "
-        "threaded scheduler with 1..16 workers, compared with the in-memory result at 1e-10 relative; two lazily read file sets combined in one graph.",
+        "threaded scheduler with 1..16 workers, compared with the in-memory result at 1e-10 relative; two lazily read file sets combined in one graph. Added: reductions (sum, block statistics) are partition- and order-independent over Q for flat and tree-shaped combination (3 theorems); variance_stokes_linear on chunked data with the baths in rotated order.",
    ref="5/C13", note=TB + "Thread schedules are sampled by running, not enumerated: a data race that needs a particular interleaving is outside the model (runtime behaviour the "
         "model cannot exhibit). variance_stokes_exponential is limited to <= 4 chunks per dimension. Observation (not a violation of C13): 'auto' is truthy in "
         "`load_in_memory == 'auto' and npartitions <= 5 or load_in_memory`, so 'auto' always loads into memory.",
